@@ -298,7 +298,9 @@ class Term:
 
 
 # families in which the property does not promise a result (an exception is `undefined`, a returned value is compared)
-UNPROMISED = {"TensorProd", "Norm", "Normalize", "np_function", "np_axes"}
+# "arith_list": a constant tensor written as a Python list is an array-like, not a plain array: a refusal (exception) is not judged,
+# a returned value is
+UNPROMISED = {"TensorProd", "Norm", "Normalize", "np_function", "np_axes", "arith_list"}
 
 
 def _t1(fam, tpl, X, impl, model):
@@ -418,6 +420,17 @@ def binary_terms(X, Y, lvl=2):
                 yield _t2("ufunc2", nm + "({a},{b})", X, Y, uf, lambda A, B, uf=uf: m_elementwise(uf, A, B, True))
             if _is_fe(X) and rx >= ry and (_is_fe(Y) or (Y.sig[0] == "P" and Y.sig != "PQ")):
                 yield _t2("ufunc2", "np.multiply({a},{b},out=)", X, Y, _multiply_out, lambda A, B: m_elementwise(np.multiply, A, B))
+        # the same constant tensor written as a (nested) Python list, and the ufunc spelling with a Field operand
+        if _is_fe(X) and not X.isfield and Y.sig in ("P1", "P2") and isinstance(Y.obj, np.ndarray) and lvl >= 2:
+            for sym, fn, additive in _ARITH:
+                yield _t2("arith_list", "{a} " + sym + " {b}.tolist()", X, Y, lambda a, b, fn=fn: fn(a, b.tolist()),
+                          lambda A, B, fn=fn, ad=additive: m_elementwise(fn, A, B, ad))
+                yield _t2("arith_list", "{b}.tolist() " + sym + " {a}", X, Y, lambda a, b, fn=fn: fn(b.tolist(), a),
+                          lambda A, B, fn=fn, ad=additive: m_elementwise(fn, B, A, ad))
+        if _is_fe(X) and not X.isfield and Y.isfield and lvl >= 2:
+            for nm, uf in (("np.multiply", np.multiply), ("np.add", np.add)):
+                yield _t2("ufunc2", nm + "({a},{b})", X, Y, uf, lambda A, B, uf=uf: m_elementwise(uf, A, B, True))
+                yield _t2("ufunc2", nm + "({b},{a})", X, Y, lambda a, b, uf=uf: uf(b, a), lambda A, B, uf=uf: m_elementwise(uf, B, A, True))
     # power with Python scalars only (both orders)
     if Y.sig in ("S", "Si") and _is_fe(X) and not X.isfield:
         yield _t2("pow", "{a} ** {b}", X, Y, operator.pow, lambda A, B: m_elementwise(np.power, A, B))
